@@ -3,7 +3,8 @@
     All theorems: exact arithmetic (NumR), every length in the accepted range,
     every construction value, every stream, every position. *)
 From Yata Require Import Base.Prelude Base.Num Base.NumR Core.Window Core.Candle
-  Spec.Hist Spec.MethodDefs Methods.Basic Proofs.MethodsCommon Proofs.Windowed Proofs.Windowed2.
+  Spec.Hist Spec.MethodDefs Methods.Basic Proofs.MethodsCommon Proofs.Windowed Proofs.Windowed2 Proofs.Windowed3 Proofs.Windowed4
+  Proofs.Windowed5 Proofs.Windowed6.
 From Coq Require Import Reals Lra.
 Open Scope Z_scope.
 
@@ -36,6 +37,33 @@ Proof. exact past_correct. Qed.
 Theorem C02_linear_volatility : windowed_correct linvol_new linvol_next (linvol_def (N := NumR)) 1 (pmax - 1).
 Proof. exact linvol_correct. Qed.
 
+Theorem C02_vwma : windowed_correct vwma_new vwma_next (vwma_def (N := NumR)) 1 (pmax - 1).
+Proof. exact vwma_correct. Qed.
+Theorem C02_adi_windowed : windowed_correct adi_new adi_next (adi_def (N := NumR)) 1 (pmax - 1).
+Proof. exact adi_correct. Qed.
+(** sample standard deviation: sqrt (sum (x - mean)^2 / (n-1)); the |.| under the root is shown redundant *)
+Theorem C02_st_dev : windowed_correct stdev_new stdev_next (stdev_def (N := NumR)) 2 (pmax - 1).
+Proof. exact stdev_correct. Qed.
+Theorem C02_mean_abs_dev : windowed_correct mad_new mad_next (mad_def (N := NumR)) 1 (pmax - 1).
+Proof. exact mad_correct. Qed.
+Theorem C02_cci : windowed_correct cci_new cci_next (cci_def (N := NumR)) 1 (pmax - 1).
+Proof. exact cci_correct. Qed.
+Theorem C02_trima : windowed_correct trima_new trima_next (trima_def (N := NumR)) 1 (pmax - 1).
+Proof. exact trima_correct. Qed.
+(** least-squares intercept at the newest point, closed forms of s_x, s_x2 and the divider included *)
+Theorem C02_lin_reg : windowed_correct linreg_new linreg_next (linreg_def (N := NumR)) 2 (pmax - 1).
+Proof. exact linreg_correct. Qed.
+(** every weight vector of length 1..MAX-1; the newest element meets the last weight *)
+Theorem C02_conv ws v xs x : 1 <= Z.of_nat (length ws) <= pmax - 1 ->
+  exists s0, conv_new (N := NumR) ws v = Ok s0 /\
+    snd (conv_next (steps conv_next s0 xs) x) = conv_def ws (hget v (rev (xs ++ [x]))).
+Proof. exact (conv_correct ws v xs x). Qed.
+(** HMA(n) = WMA_k (2 WMA_(n/2) - WMA_n) with k the saturating truncating cast of sqrt n *)
+Theorem C02_hma n v xs x : 2 <= n <= pmax - 1 ->
+  exists s0, hma_new (N := NumR) n v = Ok s0 /\
+    snd (hma_next (steps hma_next s0 xs) x) =
+    hma_def (Z.to_nat n) (Z.to_nat (n / 2)) (Z.to_nat (hma_len3 n)) (hget v (rev (xs ++ [x]))).
+Proof. exact (hma_correct n v xs x). Qed.
 End C02.
 
 (** non-vacuity: the hypotheses are met and the statement is about a concrete,
